@@ -69,7 +69,7 @@ PROPS = {
                 rule="generated schema objects shared by 16 goroutines, each running Parse / Validate / Collect with its own data, destination (two destination struct layouts per schema) and options under the Go race detector; every result is compared with the result of the same call running alone; distinct = distinct shared schema shapes",
                 families=[dict(name="race", family="race", quick=0, thorough=0, tags=["data_race", "concurrent_result"]),
                           dict(name="history", family="history", profile="C07", quick=400, thorough=5000, tags=["isolation", "isolation_dirty", "issue_aliased", "panic", "ctx", "nil", "issues", "msg", "dest"])]),
-    "C09": dict(theorems=["C09_struct_order_independent_partial", "C09_fields_order_independent_partial", "C09_deep_order_independent_partial", "C09_deep_premise_is_satisfiable", "C09_input_key_order_irrelevant", "C09_error_state_irrelevant_without_transforms", "C09_engine_computes_semantics", "C09_message_independent_of_parameter_order", "C09_sequential_replacement_is_simultaneous_substitution", "C09_message_order_refuted_without_hypotheses"], cone=ENGINE_CONE + ["Proofs/Indep.v", "Proofs/DeepOrder.v", "Model/Fmt.v", "Gen/Tables.v", "Proofs/FmtOrderP.v"], rule=ENGINE_RULE,
+    "C09": dict(theorems=["C09_struct_order_independent_partial", "C09_fields_order_independent_partial", "C09_deep_order_independent_partial", "C09_deep_premise_is_satisfiable", "C09_input_key_order_irrelevant", "C09_error_state_irrelevant_without_transforms", "C09_engine_computes_semantics", "C09_message_independent_of_parameter_order", "C09_one_pass_is_simultaneous_substitution", "C09_legacy_message_depends_on_order_refuted", "C09_repair_keeps_brace_free_messages"], cone=ENGINE_CONE + ["Proofs/Indep.v", "Proofs/DeepOrder.v", "Model/Fmt.v", "Gen/Tables.v", "Proofs/FmtOrderP.v"], rule=ENGINE_RULE,
                 families=[eng("engine", "C09", 1000, 16000, ["repeat", "repeat_ptgate", "panic", "nil", "issues", "dest"]),
                           # one schema object at two places of a larger schema whose destinations lay the fields out differently: each place as an independent copy, on every run
                           dict(name="shared", family="builder", profile="default", quick=120, thorough=1000, shard=150, tags=["share"])]),   # + the tie itself: an outcome no visit order of the (order-independent) model explains
